@@ -1151,7 +1151,7 @@ def list_method(it, st, recv, name, args, kwargs, node):
     target = node.func.value  # ast of the receiver
 
     def note(op, value=None):
-        it.emit(st, "list." + op, node, target=ast.unparse(target), value=value, held=list(st.held), before=recv)
+        it.emit(st, "list." + op, node, target=it.target_key(st, target, recv), target_src=ast.unparse(target), value=value, held=list(st.held), before=recv)
 
     def writeback(newv):
         loc = getattr(recv, "loc", None)
